@@ -463,6 +463,61 @@ pub fn run_in_child(plan: &Plan, flavour: &str) -> Vec<(String, String)> {
     sigs
 }
 
+/// `minimise <plan file> <property> <rule> <out file>`: in-process minimisation in this
+/// binary's build flavour (used by the orchestrator for violations seen in the other flavour).
+pub fn minimise_file(args: &[String]) {
+    let text = std::fs::read_to_string(&args[0]).expect("read plan");
+    let plan: Plan = serde_json::from_str(&text).expect("parse plan");
+    let target = (args[1].clone(), args[2].clone());
+    let runner = |p: &Plan| -> Vec<(String, String)> { sigs_of(&run_any(p, false)) };
+    let reproduced = runner(&plan).contains(&target);
+    let min = if reproduced {
+        let mut sh = Shrinker { target: target.clone(), run: &runner, budget: 3000, used: 0 };
+        sh.minimise(&plan)
+    } else {
+        plan.clone()
+    };
+    let out = run_any(&min, false);
+    let detail = out.violations.iter().find(|x| x.property == target.0 && x.rule == target.1).map(|x| x.detail.clone());
+    let res = serde_json::json!({ "reproduced": reproduced, "plan": min, "detail": detail, "trace_hash": out.trace_hash });
+    std::fs::write(&args[3], serde_json::to_string(&res).unwrap()).expect("write result");
+    println!("DONE");
+}
+
+/// Runs `minimise_file` in the binary of the given flavour. None = it did not work out.
+fn minimise_in_flavour(plan: &Plan, flavour: &str, prop: &str, rule: &str) -> Option<(bool, Plan, Option<String>, u64)> {
+    let dir = format!("{}/target-tmp", root());
+    let _ = std::fs::create_dir_all(&dir);
+    let path = format!("{}/min-{}.json", dir, std::process::id());
+    let outpath = format!("{}.out", path);
+    std::fs::write(&path, serde_json::to_string(plan).unwrap()).ok()?;
+    let mut child = Command::new(exe(flavour)).args(["minimise", &path, prop, rule, &outpath]).stdout(Stdio::null()).stderr(Stdio::null()).spawn().ok()?;
+    let t0 = std::time::Instant::now();
+    let ok = loop {
+        match child.try_wait() {
+            Ok(Some(st)) => break st.success(),
+            Ok(None) => {
+                if t0.elapsed().as_secs() > 600 {
+                    let _ = child.kill();
+                    let _ = child.wait();
+                    break false;
+                }
+                std::thread::sleep(std::time::Duration::from_millis(20));
+            }
+            Err(_) => break false,
+        }
+    };
+    let text = std::fs::read_to_string(&outpath).unwrap_or_default();
+    let _ = std::fs::remove_file(&path);
+    let _ = std::fs::remove_file(&outpath);
+    if !ok {
+        return None;
+    }
+    let v: serde_json::Value = serde_json::from_str(&text).ok()?;
+    let plan: Plan = serde_json::from_value(v.get("plan")?.clone()).ok()?;
+    Some((v.get("reproduced")?.as_bool()?, plan, v.get("detail").and_then(|d| d.as_str()).map(|s| s.to_string()), v.get("trace_hash").and_then(|h| h.as_u64()).unwrap_or(0)))
+}
+
 pub fn runplan(path: &str) {
     let text = std::fs::read_to_string(path).expect("read plan");
     let plan: Plan = serde_json::from_str(&text).expect("parse plan");
@@ -588,11 +643,22 @@ pub fn check(prop: &str, tier: &str) -> i32 {
             }
             s
         };
+        // a violation seen in the other build flavour is minimised by that flavour's binary, in
+        // one process; only runs that kill or stall the process need a child per candidate
+        let other = if rule != "process-died" && rule != "hang" && flavour != current_flavour() { minimise_in_flavour(&plan, flavour, prop, rule) } else { None };
         let mut sh = Shrinker { target: target.clone(), run: &runner2, budget: if rule == "hang" { 0 } else if in_child { 300 } else { 3000 }, used: 0 };
-        let reproduced = rule != "hang" && runner2(&plan).contains(&target);
-        let min = if reproduced { sh.minimise(&plan) } else { plan.clone() };
+        let reproduced = match &other {
+            Some((r, ..)) => *r,
+            None => rule != "hang" && runner2(&plan).contains(&target),
+        };
+        let min = match &other {
+            Some((_, p, ..)) => p.clone(),
+            None => if reproduced { sh.minimise(&plan) } else { plan.clone() },
+        };
         // final run of the minimised plan, to record its detail and trace hash
-        let (detail, hash) = if in_child {
+        let (detail, hash) = if let Some((_, _, d, h)) = &other {
+            (d.clone().unwrap_or(v.detail.clone()), *h)
+        } else if in_child {
             (v.detail.clone(), 0)
         } else {
             let out = run_any(&min, false);
